@@ -118,6 +118,7 @@ def run(prog, rep):
                             'independent parser splits or alters the field' % (ch, sep), func=f.id)
 
     check_unescape(prog, rep)
+    check_lookahead_fresh(prog, rep)
 
     # ---------------------------------------------------------------- R9.3
     for cls, meth, operands in (('CCsvStringReader', 'ParseNextRow', ({'mHeaders', 'mRowValuesMeta'}, {'mPrevValuesCount', 'mRowValuesMeta'})),
@@ -437,3 +438,83 @@ def check_unescape(prog, rep):
                                 % (cls, nm[2:], pr), func=f.id)
             else:
                 rep.ok('R9.5', site, sample={'reader': cls, 'cell_length': nm, 'outcomes': {str(k): sorted(v) for k, v in res.items()}})
+
+
+# ---------------------------------------------------------------------------------------- R9.6 end-of-input look-ahead is fresh
+def check_lookahead_fresh(prog, rep, rule='R9.6'):
+    """CCsvStreamReader::IsEnd() is 'buffer fully parsed && decoder at end'. It is only meaningful when a refill was attempted after the
+    buffer ran dry: on every normal return of ParseNextLine the last change of the parse cursor must be followed by the look-ahead test
+    'mCurrentPos == mDecodedBuffer.size()' whose true branch calls ReadChunk (forward may-analysis over the CFG: FRESH / STALE)."""
+    rep.rule(rule, 'CCsvStreamReader::ParseNextLine: on every normal return the parse cursor has not moved since the last look-ahead test '
+                     '(cursor == buffer size -> ReadChunk), so IsEnd() polled between rows reflects the stream', floor=2)
+    fs = [g for g in prog.funcs.values() if g.q == NS + 'CCsvStreamReader::ParseNextLine']
+    if len(fs) != 1:
+        raise AnalysisBroken('anchor vanished: CCsvStreamReader::ParseNextLine')
+    f = fs[0]
+    rep.touch(f)
+    cfg = CFG(f)
+
+    def mentions(n, member):
+        return any(x['k'] == 'MemberExpr' and x.get('m') == member for x in f.walk(n))
+
+    checks = set()
+    for n in f.walk():
+        if n['k'] == 'IfStmt':
+            c0 = strip(child(n, 'cond'))
+            if c0 is not None and c0['k'] == 'BinaryOperator' and c0.get('op') == '==' and mentions(c0, 'mCurrentPos') and mentions(c0, 'mDecodedBuffer') \
+                    and not any(x['k'] == 'BinaryOperator' and x.get('op') == '+' for x in f.walk(c0)):
+                then = child(n, 'then')
+                if any(x['k'] == 'CXXMemberCallExpr' and (f.callee(x) or {}).get('n') == 'ReadChunk' for x in f.walk(then)):
+                    checks.add(c0['i'])
+    if not checks:
+        rep.finding(rule, 'ParseNextLine|no look-ahead', f.loc(), 'CCsvStreamReader::ParseNextLine has no look-ahead test (cursor == buffer size -> ReadChunk)', func=f.id, count=2)
+        return
+
+    def is_adv(n):
+        if n['k'] == 'UnaryOperator' and n.get('op') in ('++', '--') and mentions(n['c'][0], 'mCurrentPos'):
+            return True
+        if n['k'] in ('BinaryOperator', 'CompoundAssignOperator') and n.get('op') in ('=', '+=', '-='):
+            # any assignment whose target chain contains mCurrentPos (including a = mCurrentPos = b)
+            lhs = n['c'][0]
+            if mentions(lhs, 'mCurrentPos') and strip(lhs)['k'] == 'MemberExpr':
+                return True
+        if n['k'] == 'CXXMemberCallExpr' and (f.callee(n) or {}).get('n') in ('erase', 'clear', 'resize', 'assign') and mentions(n['c'][0], 'mDecodedBuffer'):
+            return True
+        return False
+
+    FRESH, STALE = 0, 1
+
+    def transfer(b, st):
+        for n in b.nodes:
+            if n.get('i') in checks:
+                st = FRESH
+            elif is_adv(n):
+                st = STALE
+        return st
+    state_in = cfg.forward(FRESH, transfer, max)
+    n_ret = 0
+    bad = []
+    for bid, b in cfg.blocks.items():
+        if bid not in state_in:
+            continue
+        rets = [n for n in b.nodes if n['k'] == 'ReturnStmt']
+        if not rets:
+            continue
+        st = state_in[bid]
+        for n in b.nodes:
+            if n.get('i') in checks:
+                st = FRESH
+            elif is_adv(n):
+                st = STALE
+            if n['k'] == 'ReturnStmt':
+                n_ret += 1
+                if st == STALE:
+                    bad.append(f.loc(n))
+                else:
+                    rep.ok(rule, 'return at %s' % f.loc(n), sample={'return': f.loc(n), 'look_ahead_tests': len(checks)})
+    for loc in sorted(set(bad)):
+        rep.finding(rule, 'ParseNextLine|stale look-ahead', loc, 'CCsvStreamReader::ParseNextLine can return at %s after moving the parse cursor without a later '
+                    'look-ahead test: when the stream ended exactly at a chunk boundary IsEnd() stays false and the array loader reads one more (empty) row' % loc,
+                    func=f.id)
+    if not n_ret:
+        raise AnalysisBroken(rule + ': no return statement reached in ParseNextLine')
